@@ -11,7 +11,7 @@ PROP_FILES = ['BC/Props/C18.lean']
 THEOREMS = ['C18_config_merge', 'C18_defaults', 'C18_set_rejects_nonpositive', 'C18_global_step_history', 'C18_global_step_last', 'C18_step_bound',
             'C18_lower_tables', 'C18_names_resolve', 'C18_aliases_resolve', 'C18_case_blind', 'C18_unknown_safe', 'C18_set_pref', 'C18_radian']
 STATEMENTS = {
-    'C18_config_merge': 'each of the 8 settings = override if given, else the default (max step default = the CURRENT global step)',
+    'C18_config_merge': 'each of the 8 settings = override if given, else the default read off the current source (regenerated module constants; max step default = the CURRENT global step)',
     'C18_defaults': 'regenerated: initial global step 0.5, gravity -32.17405, and which module constant feeds which configuration field',
     'C18_set_rejects_nonpositive': 'set_global_max_calc_step_size(v <= 0) is a ValueError and changes nothing',
     'C18_global_step_history': 'induction over ANY history of set/reset/create: a calculator is built from its overrides and the global step in force when created; no later operation changes it',
